@@ -664,35 +664,6 @@ func Attempted(op Op, running *Cfg) *Cfg {
 
 func Order(names []int, apps []App) []App { return order(names, apps) }
 
-var reHTTPListening = regexp.MustCompile(`http app module: start: listening on (?:tcp/)?(\S+?): `)
-
-// F2Leak: the sockets finding F2 (C01) accounts for after this operation: the HTTP app's own
-// Start failed at its k-th listener; listeners 0..k-1 stay bound with the rejected config's tag.
-func F2Leak(attempted *Cfg, o StepObs) map[int][]int {
-	out := map[int][]int{}
-	if o.Res != "err:start" || attempted == nil {
-		return out
-	}
-	m := reHTTPListening.FindStringSubmatch(o.Err)
-	if m == nil {
-		return out
-	}
-	for _, a := range attempted.Apps {
-		if !a.IsHTTP() {
-			continue
-		}
-		for k, ad := range a.Listen {
-			if addrs[ad] == m[1] {
-				for _, before := range a.Listen[:k] {
-					out[before] = append(out[before], a.Tag)
-				}
-				break
-			}
-		}
-	}
-	return out
-}
-
 // WantPool: usage-pool references the running configuration accounts for (one per guest module).
 func WantPool(running *Cfg) [NAddr]int {
 	var w [NAddr]int
